@@ -46,13 +46,13 @@ PROPS["C07"] = dict(
     assumptions=["lz4_flex frame decoder is shared with the reference parser"],
     jobs=[
         Job("xorb_rt", engine="xorb_rt", workers=(8, 16), cases=(60, 4000), time_s=(40, 700), extra_workers_arg=True,
-            args={"max-chunks": (300, 1200), "bg4-max-len": (4100, 20000)}, **PURE),
+            args={"max-chunks": (8192, 8192), "bg4-max-len": (4100, 20000)}, **PURE),
         Job("miri-bg4", engine="bg4", workers=(3, 16), cases=(1, 1), time_s=(120, 900), args={"span": (40, 70)}, **MIRI),
         Job("miri-xorb", engine="xorb", workers=(2, 16), cases=(1, 5), time_s=(150, 900), args={"mutants": (2, 6)}, **MIRI),
-        Job("asan-xorb_rt", engine="xorb_rt", workers=(8, 8), cases=(300, 300), time_s=(300, 300), extra_workers_arg=True, args={"max-chunks": 300, "bg4-max-len": 4100}, **ASAN),
+        Job("asan-xorb_rt", engine="xorb_rt", workers=(8, 8), cases=(300, 300), time_s=(300, 300), extra_workers_arg=True, args={"max-chunks": 8192, "bg4-max-len": 4100}, **ASAN),
     ],
     gates=dict(evaluations=(300, 10000), distinct=(100, 400),
-               counters={"ranges_checked": (10000, 300000), "bg4_lengths_checked": (4101, 20001), "xorbs_with_incompressible_fallback": (50, 1000), "miri_bg4_lengths": (100, 1000), "miri_xorbs": (2, 60)}),
+               counters={"ranges_checked": (10000, 300000), "bg4_lengths_checked": (4101, 20001), "xorbs_with_incompressible_fallback": (50, 1000), "xorbs_with_more_than_1152_chunks": (10, 200), "miri_bg4_lengths": (100, 1000), "miri_xorbs": (2, 60)}),
     exhaustive_note="bg4 split/regroup (all variants) for every input length 0..bg4-max-len",
 )
 
@@ -102,7 +102,7 @@ PROPS["C09"] = dict(
           "distinct = (size buckets, key spaces, flags) resp. (table size bucket, class)"),
     assumptions=["shards < 4 GiB", "size clause judged on shards built from distinct records"],
     jobs=[
-        Job("shard_fmt", engine="shard_fmt", workers=(8, 12), cases=(40, 2500), time_s=(40, 700), args={"scale": (4, 40)}, **PURE),
+        Job("shard_fmt", engine="shard_fmt", workers=(8, 12), cases=(40, 2500), time_s=(40, 700), args={"scale": (12, 60)}, **PURE),
         Job("shard_search", engine="shard_search", workers=(4, 4), cases=(60, 6000), time_s=(40, 700), args={"max-table": (50000, 200000)}, **PURE),
     ],
     gates=dict(evaluations=(400, 20000), distinct=(150, 400),
